@@ -76,6 +76,19 @@ class Family:
             for q, fi in repo.module(rel).functions.items():
                 if "." not in q and q not in self.env:
                     self.env[q] = UserFunc(fi.node)
+        # plain module-level constants of the modules the slots live in (chunk sizes, sentinels, ...)
+        for f in self.slots.values():
+            if f is None:
+                continue
+            for name, val in f.module.assigns.items():
+                if name in self.env:
+                    continue
+                try:
+                    v = Evaluator({}).ev(val, {})
+                except (Refused, TypeError, ValueError, KeyError):
+                    continue
+                if isinstance(v, (int, str, bytes, frozenset, tuple)) or v is None:
+                    self.env[name] = v
         self.where = {s: (f.key if f is not None else None) for s, f in self.slots.items()}
 
     @staticmethod
@@ -99,7 +112,7 @@ class Family:
 
     def run(self, cls: Sym, slot: str, stream: Stream, *args: Any) -> tuple[str, Any]:
         try:
-            r = Evaluator(self.env, steps=20000).call_user(UserFunc(self.slots[slot].node), [cls, stream.sym(), *args], {})
+            r = Evaluator(self.env, steps=400000).call_user(UserFunc(self.slots[slot].node), [cls, stream.sym(), *args], {})
             return ("ok", r)
         except Raised as e:
             return ("raise", str(e).split("(")[0])
@@ -243,7 +256,7 @@ def fold_text_family(repo: Repo, family: str) -> dict | None:
         ci = repo.cls(family)
         out: dict = {"cases": 0, "bad": [], "slots": fam.where}
         wide = family == "Wchar"
-        texts = ["A", "h\u00e9llo", "a\U0001f600b", "\u4e2d\u6587"] if wide else [b"A", b"hello", b"\xff\x80\x01", b"a b"]
+        texts = ["A", "h\u00e9llo", "a\U0001f600b", "\u4e2d\u6587", "long-" * 130] if wide else [b"A", b"hello", b"\xff\x80\x01", b"a b", b"0123456789" * 70]
         for endian in ORDER:
             attrs: dict[str, Any] = {"cs": Sym("cs", {"endian": endian}), "size": 2 if wide else 1, "__name__": family}
             if "__encoding_map__" in ci.attrs:
@@ -266,23 +279,24 @@ def fold_text_family(repo: Repo, family: str) -> dict | None:
                 units = len(e) // unit
                 st = Stream(e + b"\xcc\xcc")
                 r = fam.run(cls, "_read_array", st, units)
-                check("_read_array", f"{t!r} as {units} units", (r, st.pos), (("ok", t), len(e)))
+                tl = t if len(t) < 20 else t[:8] + type(t)(b"..." if isinstance(t, bytes) else "...") + f"[{len(t)}]".encode() if isinstance(t, bytes) else (t if len(t) < 20 else t[:8] + f"...[{len(t)}]")
+                check("_read_array", f"{tl!r} as {units} units", (r, st.pos), (("ok", t), len(e)))
                 st = Stream(e[:-1])
                 r = fam.run(cls, "_read_array", st, units)
-                check("_read_array", f"{t!r} one byte short", r[0], "raise")
+                check("_read_array", f"{tl!r} one byte short", r[0], "raise")
                 st = Stream(e)
                 r = fam.run(cls, "_read_array", st, fam.env["EOF"])
-                check("_read_array", f"{t!r} to end of stream", (r, st.pos), (("ok", t), len(e)))
+                check("_read_array", f"{tl!r} to end of stream", (r, st.pos), (("ok", t), len(e)))
                 term = b"\x00" * unit
                 st = Stream(e + term + e)
                 r = fam.run(cls, "_read_0", st)
-                check("_read_0", f"{t!r} terminated", (r, st.pos), (("ok", t), len(e) + unit))
+                check("_read_0", f"{tl!r} terminated", (r, st.pos), (("ok", t), len(e) + unit))
                 st = Stream(e)
                 r = fam.run(cls, "_read_0", st)
-                check("_read_0", f"{t!r} terminator missing", r[0], "raise")
+                check("_read_0", f"{tl!r} terminator missing", r[0], "raise")
                 st = Stream()
                 r = fam.run(cls, "_write", st, t)
-                check("_write", f"{t!r}", (r, bytes(st.written)), (("ok", len(e)), e))
+                check("_write", f"{tl!r}", (r, bytes(st.written)), (("ok", len(e)), e))
             first = texts[0]
             st = Stream(enc(first) + b"\xcc\xcc")
             r = fam.run(cls, "_read", st)
